@@ -1,6 +1,7 @@
 import HpoModel.Proto
 import HpoModel.Num
 import HpoModel.Load
+import HpoModel.Bulk
 /-
 Driver state and the core operations of the line protocol: building an ontology through the
 Builder model and dumping the whole read API in canonical form.
@@ -93,6 +94,13 @@ def dump (o : Onto) : List String :=
   ++ (sortRecs o.orpha).map (dumpRec "R")
   ++ ["WALK " ++ (if walk then "ok" else "panic")]
 
+/-- the dump without the per-record lines -/
+def tdump (o : Onto) : List String :=
+  ["V " ++ showVersion o.version, "N " ++ toString o.terms.length,
+   "CAT " ++ showIds o.categories, "MOD " ++ showIds o.modifier,
+   "NREC " ++ toString o.genes.length ++ " " ++ toString o.omim.length ++ " " ++ toString o.orpha.length]
+  ++ (sortTerms o.terms).map (dumpTerm o)
+
 /-- all ordered pairs: `child_of` / `parent_of` -/
 def dumpRel (o : Onto) : List String :=
   let ts := sortTerms o.terms
@@ -127,6 +135,16 @@ def handle (s : DState) (toks : List String) : Option Out :=
     | some k, some i, some n =>
       if s.phase ≠ 3 then none else some ({ s with cur := s.cur.addRec k n i }, [])
     | _, _, _ => none
+  | ["bulkrec", k, first, count, name] =>
+    match parseKind k, first.toNat?, count.toNat?, parseName name with
+    | some k, some a, some c, some n =>
+      if s.phase ≠ 3 then none else some ({ s with cur := s.cur.addRecRangeFast k n a c }, [])
+    | _, _, _, _ => none
+  | ["bulkann", k, first, count, name, t] =>
+    match parseKind k, first.toNat?, count.toNat?, parseName name, t.toNat? with
+    | some k, some a, some c, some n, some t =>
+      if s.phase ≠ 3 then none else some (fallible s (s.cur.annotateRange k n t a c))
+    | _, _, _, _, _ => none
   | ["ann", k, id, name, t] =>
     match parseKind k, id.toNat?, parseName name, t.toNat? with
     | some k, some i, some n, some t =>
@@ -160,6 +178,10 @@ def handle (s : DState) (toks : List String) : Option Out :=
   | ["dump", slot] =>
     match slot.toNat?.bind s.slot with
     | some o => some (s, dump o)
+    | none => some (s, ["noslot"])
+  | ["tdump", slot] =>
+    match slot.toNat?.bind s.slot with
+    | some o => some (s, tdump o)
     | none => some (s, ["noslot"])
   | ["rel", slot] =>
     match slot.toNat?.bind s.slot with
